@@ -42,13 +42,13 @@ package controller
 //@ func (*scaleLock).lock(l, nodes)
 //@   requires l != nil
 //@   modifies l.isLocked, l.requestedNodes, l.lockTime, clock
-//@   ensures [C02] l.isLocked && l.requestedNodes == nodes && l.lockTime == clock && clock >= old(clock)
+//@   ensures l.isLocked && l.requestedNodes == nodes && l.lockTime == clock && clock >= old(clock)
 
 // ---------------------------------------------------------------- scale_up.go
 
 //@ func (*Controller).calculateNodesToAdd(c, nodesToAdd, TargetSize, MaxNodes) (r)
-//@   ensures [C04] TargetSize + nodesToAdd > MaxNodes ==> r == MaxNodes - TargetSize
-//@   ensures [C04] TargetSize + nodesToAdd <= MaxNodes ==> r == nodesToAdd
+//@   ensures TargetSize + nodesToAdd > MaxNodes ==> r == MaxNodes - TargetSize
+//@   ensures TargetSize + nodesToAdd <= MaxNodes ==> r == nodesToAdd
 
 // ---------------------------------------------------------------- node_group.go: validation
 
@@ -151,7 +151,7 @@ package controller
 //@   ensures Jlen == old(Jlen) + 1 ==> Jkind[old(Jlen)] == C_INCREASE && Jname[old(Jlen)] == gid(opts.nodeGroup) && Jnum[old(Jlen)] >= 1
 //@   ensures [C04] Jlen == old(Jlen) + 1 ==> tgt(gid(opts.nodeGroup)) + Jnum[old(Jlen)] <= cmax(gid(opts.nodeGroup))
 //@   ensures [C04] Jlen == old(Jlen) + 1 ==> tgt(gid(opts.nodeGroup)) + Jnum[old(Jlen)] <= opts.nodeGroup.Opts.MaxNodes
-//@   ensures [C04] Jlen == old(Jlen) + 1 ==> Jnum[old(Jlen)] == min(opts.nodesDelta, min(opts.nodeGroup.Opts.MaxNodes, cmax(gid(opts.nodeGroup))) - tgt(gid(opts.nodeGroup)))
+//@   ensures [C04,C07] Jlen == old(Jlen) + 1 ==> Jnum[old(Jlen)] == min(opts.nodesDelta, min(opts.nodeGroup.Opts.MaxNodes, cmax(gid(opts.nodeGroup))) - tgt(gid(opts.nodeGroup)))
 //@   ensures [C04] min(opts.nodeGroup.Opts.MaxNodes, cmax(gid(opts.nodeGroup))) - tgt(gid(opts.nodeGroup)) <= 0 ==> Jlen == old(Jlen) && err != nil
 //@   ensures err == nil ==> n >= 1 && n <= opts.nodesDelta
 //@   ensures err == nil && !dry(c, opts.nodeGroup) ==> Jlen == old(Jlen) + 1 && Jok[old(Jlen)] && Jnum[old(Jlen)] == n
@@ -204,8 +204,8 @@ package controller
 //@   requires forall i :: 0 <= i && i < len(nodes) ==> nodes[i] != nil
 //@   modifies Jlen, Jkind, Jname, Jnode, Jok, Jesc, clock, nTaintOK, nUntaintOK, getSeen, nodeGroup.taintTracker, elems(nodeGroup.taintTracker)
 //@   ensures len(res) <= n && Jlen >= old(Jlen) && jprefix(old(Jlen)) && clock >= old(clock)
-//@   ensures [C03] nUntaintOK == old(nUntaintOK) && old(nTaintOK) <= nTaintOK && nTaintOK - old(nTaintOK) <= len(res)
-//@   ensures [C11] dry(c, nodeGroup) ==> Jlen == old(Jlen) && nTaintOK == old(nTaintOK)
+//@   ensures [C03,C06] nUntaintOK == old(nUntaintOK) && old(nTaintOK) <= nTaintOK && nTaintOK - old(nTaintOK) <= len(res)
+//@   ensures [C11] dry(c, nodeGroup) ==> Jlen == old(Jlen)
 //@   ensures forall k :: old(Jlen) <= k && k < Jlen ==> Jkind[k] == K_UPDATE && (exists i :: 0 <= i && i < len(nodes) && nodes[i].Name == Jname[k])
 //@ loop #0
 //@   modifies elems(sorted)
@@ -216,8 +216,8 @@ package controller
 //@   invariant base(taintedIndices) == entry(base(taintedIndices)) && cap(taintedIndices) == n && off(taintedIndices) == 0
 //@   invariant (base(nodeGroup.taintTracker) == entry(base(nodeGroup.taintTracker)) && off(nodeGroup.taintTracker) == entry(off(nodeGroup.taintTracker)) && cap(nodeGroup.taintTracker) == entry(cap(nodeGroup.taintTracker))) || birth(base(nodeGroup.taintTracker)) >= entry(now)
 //@   invariant len(taintedIndices) <= n && Jlen >= old(Jlen) && jprefix(old(Jlen)) && clock >= old(clock)
-//@   invariant nUntaintOK == old(nUntaintOK) && old(nTaintOK) <= nTaintOK && nTaintOK - old(nTaintOK) <= len(taintedIndices)
-//@   invariant dry(c, nodeGroup) ==> Jlen == old(Jlen) && nTaintOK == old(nTaintOK)
+//@   invariant [C03,C06] nUntaintOK == old(nUntaintOK) && old(nTaintOK) <= nTaintOK && nTaintOK - old(nTaintOK) <= len(taintedIndices)
+//@   invariant dry(c, nodeGroup) ==> Jlen == old(Jlen)
 //@   invariant forall k :: old(Jlen) <= k && k < Jlen ==> Jkind[k] == K_UPDATE && (exists p :: 0 <= p && p < len(sorted) && sorted[p].node.Name == Jname[k])
 //@   invariant forall p :: 0 <= p && p < len(sorted) ==> sorted[p].node != nil && 0 <= sorted[p].index && sorted[p].index < len(nodes) && sorted[p].node == nodes[sorted[p].index]
 
@@ -231,7 +231,7 @@ package controller
 //@   modifies Jlen, Jkind, Jname, Jnode, Jok, Jesc, nTaintOK, nUntaintOK, getSeen, nodeGroup.taintTracker, elems(nodeGroup.taintTracker)
 //@   ensures len(res) <= n && Jlen >= old(Jlen) && jprefix(old(Jlen))
 //@   ensures [C03,C06,C07] nTaintOK == old(nTaintOK) && old(nUntaintOK) <= nUntaintOK && nUntaintOK - old(nUntaintOK) <= len(res)
-//@   ensures [C11] dry(c, nodeGroup) ==> Jlen == old(Jlen) && nUntaintOK == old(nUntaintOK)
+//@   ensures [C11] dry(c, nodeGroup) ==> Jlen == old(Jlen)
 //@   ensures forall k :: old(Jlen) <= k && k < Jlen ==> Jkind[k] == K_UPDATE && (exists i :: 0 <= i && i < len(nodes) && nodes[i].Name == Jname[k])
 //@   ensures [C07] !dry(c, nodeGroup) && len(res) < n ==> (forall i :: 0 <= i && i < len(nodes) && k8s.hasEsc(nodes[i]) ==> getSeen[nodes[i].Name])
 //@ loop #0
@@ -243,7 +243,7 @@ package controller
 //@   invariant base(untaintedIndices) == entry(base(untaintedIndices)) && cap(untaintedIndices) == n && off(untaintedIndices) == 0
 //@   invariant len(untaintedIndices) <= n && Jlen >= old(Jlen) && jprefix(old(Jlen))
 //@   invariant [C03,C06,C07] nTaintOK == old(nTaintOK) && old(nUntaintOK) <= nUntaintOK && nUntaintOK - old(nUntaintOK) <= len(untaintedIndices)
-//@   invariant dry(c, nodeGroup) ==> Jlen == old(Jlen) && nUntaintOK == old(nUntaintOK)
+//@   invariant dry(c, nodeGroup) ==> Jlen == old(Jlen)
 //@   invariant forall k :: old(Jlen) <= k && k < Jlen ==> Jkind[k] == K_UPDATE && (exists p :: 0 <= p && p < len(sorted) && sorted[p].node.Name == Jname[k])
 //@   invariant forall p :: 0 <= p && p < len(sorted) ==> sorted[p].node != nil && 0 <= sorted[p].index && sorted[p].index < len(nodes) && sorted[p].node == nodes[sorted[p].index]
 //@   invariant [C07] !dry(c, nodeGroup) ==> (forall p :: 0 <= p && p < #i && k8s.hasEsc(sorted[p].node) ==> getSeen[sorted[p].node.Name])
@@ -259,7 +259,7 @@ package controller
 //@   modifies Jlen, Jkind, Jname, Jnode, Jok, Jesc, nTaintOK, nUntaintOK, getSeen, opts.nodeGroup.taintTracker, elems(opts.nodeGroup.taintTracker)
 //@   ensures err == nil && 0 <= n && n <= opts.nodesDelta && Jlen >= old(Jlen) && jprefix(old(Jlen))
 //@   ensures [C03,C06,C07] nTaintOK == old(nTaintOK) && old(nUntaintOK) <= nUntaintOK && nUntaintOK - old(nUntaintOK) <= n
-//@   ensures [C11] dry(c, opts.nodeGroup) ==> Jlen == old(Jlen) && nUntaintOK == old(nUntaintOK)
+//@   ensures [C11] dry(c, opts.nodeGroup) ==> Jlen == old(Jlen)
 //@   ensures forall k :: old(Jlen) <= k && k < Jlen ==> Jkind[k] == K_UPDATE && namedIn(Jname[k], opts.taintedNodes)
 //@   ensures [C07] !dry(c, opts.nodeGroup) && n < opts.nodesDelta ==> (forall i :: 0 <= i && i < len(opts.taintedNodes) && k8s.hasEsc(opts.taintedNodes[i]) ==> getSeen[opts.taintedNodes[i].Name])
 
@@ -271,7 +271,7 @@ package controller
 //@   modifies Jlen, Jkind, Jname, Jnode, Jok, Jesc, Jnum, nTaintOK, nUntaintOK, getSeen, clock, opts.nodeGroup.taintTracker, elems(opts.nodeGroup.taintTracker), opts.nodeGroup.scaleUpLock.isLocked, opts.nodeGroup.scaleUpLock.requestedNodes, opts.nodeGroup.scaleUpLock.lockTime
 //@   ensures Jlen >= old(Jlen) && jprefix(old(Jlen)) && clock >= old(clock)
 //@   ensures [C03,C06,C07] nTaintOK == old(nTaintOK) && old(nUntaintOK) <= nUntaintOK && nUntaintOK - old(nUntaintOK) <= opts.nodesDelta
-//@   ensures [C11] dry(c, opts.nodeGroup) ==> Jlen == old(Jlen) && nUntaintOK == old(nUntaintOK)
+//@   ensures [C11] dry(c, opts.nodeGroup) ==> Jlen == old(Jlen)
 //@   ensures forall k :: old(Jlen) <= k && k < Jlen ==> (Jkind[k] == K_UPDATE && namedIn(Jname[k], opts.taintedNodes)) || (Jkind[k] == C_INCREASE && k == Jlen - 1 && Jname[k] == gid(opts.nodeGroup) && Jnum[k] >= 1)
 //@   ensures [C04] forall k :: old(Jlen) <= k && k < Jlen && Jkind[k] == C_INCREASE ==> tgt(gid(opts.nodeGroup)) + Jnum[k] <= min(opts.nodeGroup.Opts.MaxNodes, cmax(gid(opts.nodeGroup)))
 //@   ensures [C07] Jlen > old(Jlen) && Jkind[Jlen - 1] == C_INCREASE ==> (exists u :: 0 <= u && u < opts.nodesDelta && nUntaintOK - old(nUntaintOK) <= u && Jnum[Jlen - 1] == min(opts.nodesDelta - u, min(opts.nodeGroup.Opts.MaxNodes, cmax(gid(opts.nodeGroup))) - tgt(gid(opts.nodeGroup))))
@@ -288,6 +288,6 @@ package controller
 //@   ensures Jlen >= old(Jlen) && jprefix(old(Jlen)) && clock >= old(clock)
 //@   ensures [C03,C06] nUntaintOK == old(nUntaintOK) && old(nTaintOK) <= nTaintOK && nTaintOK - old(nTaintOK) <= max(0, len(opts.untaintedNodes) - opts.nodeGroup.Opts.MinNodes) && nTaintOK - old(nTaintOK) <= opts.nodesDelta
 //@   ensures [C03] len(opts.untaintedNodes) < opts.nodeGroup.Opts.MinNodes ==> err != nil && Jlen == old(Jlen) && nTaintOK == old(nTaintOK)
-//@   ensures [C11] dry(c, opts.nodeGroup) ==> Jlen == old(Jlen) && nTaintOK == old(nTaintOK)
+//@   ensures [C11] dry(c, opts.nodeGroup) ==> Jlen == old(Jlen)
 //@   ensures forall k :: old(Jlen) <= k && k < Jlen ==> Jkind[k] == K_UPDATE && namedIn(Jname[k], opts.untaintedNodes)
 //@   ensures err == nil ==> 0 <= n && n <= opts.nodesDelta
